@@ -130,6 +130,7 @@ pub fn build_server(max_head: usize) -> Server {
             Some("aborted") => ConnectionAborted,
             Some("eof") => UnexpectedEof,
             Some("wouldblock") => WouldBlock,
+            Some("interrupted") => Interrupted,
             Some("timedout") => TimedOut,
             Some("invaliddata") => InvalidData,
             _ => Other,
